@@ -2,6 +2,7 @@ import Srtla.Lemmas.SelGate
 import Srtla.Lemmas.Enhanced
 import Srtla.Lemmas.EnhancedField
 import Srtla.Lemmas.SelectFrame
+import Srtla.Lemmas.SelShellIdem
 /-!
 # C11 — enhanced selection is stable, hysteretic and respects its gates
 
@@ -25,6 +26,12 @@ Two kinds of statements:
   `e` = `exp` with `ExpLaw e : ∀ x ≤ 0, 0 < e x ≤ 1`).  "Finite" is proved as boundedness in exact
   arithmetic; IEEE finiteness and the ranges are additionally asserted on the real code by the
   monitors `quality-range`, `softcap-range`, `score-not-finite`.
+
+Round 3 (section "Shell level"): `C11_idempotent_sys` / `C11_stable_sys` — the shell's scheduling step
+`runSelect` (`select_connection_idx` on the live connection records + write-back, `Model/Sys.lean`) is
+idempotent and stable on the FULL records, any scalar instance; `C11_factors_in_range_run` /
+`_from_init` — along every `Sys.run` the cached quality multiplier, the value any pass would use at any
+clock, the soft-cap factor for ANY CC target and bitrate, and the RTT bonus are in their documented ranges.
 -/
 namespace Srtla.Props.C11
 open Srtla Srtla.Gen Srtla.Conn Srtla.Select Srtla.SelLemmas
@@ -473,5 +480,142 @@ example (h : (@enhancedSelect ℚ ratScalar exLinks (some 0) 100000 true).2 ≠ 
       simp only [exLinks, List.mem_cons, List.not_mem_nil, or_false] at hc
       rcases hc with rfl | rfl | rfl <;> (unfold InDomain; norm_num))
     h
+
+/-! ## Shell level (round 3): `runSelect` and `Sys.run` -/
+
+section shellAnyScalar
+variable {F : Type} [Scalar F]
+open Srtla.Link Srtla.Sys
+
+/-- **Idempotent, at shell level.**  `runSelect` is the shell's scheduling step: `select_connection_idx`
+on the selection views of the live connection records, then the write-back of the guard fields and the
+quality cache into the full records (`FLink.absorb`).  Re-running it on the state it returned, at the same
+`now > 0` (the previous pick is not touched by the step), yields the same index AND the same state — the
+whole shell state: every field of every connection record, registration manager, tracker, configuration.
+Any scalar instance, `Float` included; no domain restriction. -/
+theorem C11_idempotent_sys (s : Sys F) (now : Nat) (h : 0 < now) :
+    runSelect (runSelect s now).1 now = runSelect s now :=
+  SelShell.runSelect_idem s now h
+
+/-- The two components separately: same decision, state unchanged. -/
+theorem C11_idempotent_sys_components (s : Sys F) (now : Nat) (h : 0 < now) :
+    (runSelect (runSelect s now).1 now).2 = (runSelect s now).2 ∧
+    (runSelect (runSelect s now).1 now).1 = (runSelect s now).1 := by
+  rw [C11_idempotent_sys s now h]
+  exact ⟨rfl, rfl⟩
+
+/-- **Stable, at shell level.**  After the decision `r` has been recorded as the previous pick (what
+`forward_via_connection` does with it), the scheduling step returns `r` again and changes nothing. -/
+theorem C11_stable_sys (s : Sys F) (now r : Nat) (h : 0 < now) (hr : (runSelect s now).2 = some r) :
+    runSelect { (runSelect s now).1 with lastSelected := some r } now =
+      ({ (runSelect s now).1 with lastSelected := some r }, some r) :=
+  SelShell.runSelect_stable s now r h hr
+
+/-- What the selection views of the returned state are: exactly the links `select_connection_idx`
+returned (so every theorem about `(selectIdx …).1` is a theorem about the shell state after the step). -/
+theorem C11_runSelect_view (s : Sys F) (now : Nat) :
+    (runSelect s now).1.links.map FLink.toSLink =
+      (selectIdx (s.links.map FLink.toSLink) s.lastSelected now s.cfg).1 ∧
+    (runSelect s now).2 = (selectIdx (s.links.map FLink.toSLink) s.lastSelected now s.cfg).2 :=
+  ⟨SelShell.runSelect_view s now, rfl⟩
+
+/-- They apply verbatim to the `Float` instance the compiled driver runs, in any reached state. -/
+example (s : Sys Float) (evs : List Ev) :
+    runSelect (runSelect (Sys.run s evs).1 100000).1 100000 = runSelect (Sys.run s evs).1 100000 :=
+  C11_idempotent_sys _ 100000 (by decide)
+
+/-- A concrete shell state (two live links, registered session; toy scalar `fixScalar`): the step picks
+link 1 (20000/1 against 20000/3), refreshes both quality caches (stale since 0) and stamps nothing else;
+running it again returns `some 1` and the same caches. -/
+def exShell : Sys Int :=
+  { links :=
+      [ { (@FLink.newRegistering Int fixScalar 1 0) with
+          core := { connId := 1, connected := true, phase := .live, inFlight := 2,
+                    log := [(5, 100), (7, 120)], highestAcked := 4, lastReceived := some 4990 },
+          established := 1 },
+        { (@FLink.newRegistering Int fixScalar 2 0) with
+          core := { connId := 2, connected := true, phase := .live, lastReceived := some 4990 },
+          established := 1 } ],
+    reg := { (Srtla.Reg.Reg.new [] []) with hasConnected := true } }
+
+example :
+    (@runSelect Int fixScalar exShell 5000).2 = some 1 ∧
+    ((@runSelect Int fixScalar exShell 5000).1.links.map fun l => (l.qualMult, l.qualAt)) =
+      [(1100, 5000), (1100, 5000)] ∧
+    (@runSelect Int fixScalar (@runSelect Int fixScalar exShell 5000).1 5000).2 = some 1 ∧
+    ((@runSelect Int fixScalar (@runSelect Int fixScalar exShell 5000).1 5000).1.links.map fun l =>
+      (l.qualMult, l.qualAt)) = [(1100, 5000), (1100, 5000)] := by
+  decide +kernel
+
+end shellAnyScalar
+
+section shellField
+variable {K : Type} [Field K] [LinearOrder K] [IsStrictOrderedRing K] [FloorRing K] (e : K → K) (ninf : K)
+open Srtla.Link Srtla.Sys
+
+local notation "𝕊" => fieldScalar K e ninf
+
+/-- **All score factors stay within their documented ranges along every run of the shell.**  From any
+state whose cached quality multipliers are in `[0.35, 1.1 × 1.03]` (fresh links carry `1.0`, see
+`_from_init`), after EVERY list of events of the shell (the same induction as `SysLevel.QualInv_run`, on
+`Lemmas/SysInv.step_all` + `SysInvQual.qualRange_closed`), for every link `l` of the reached state:
+* the cached quality multiplier is in `[0.35, 1.1 × 1.03]`;
+* the value a selection pass at ANY clock `now` would use for the link — the cached one, or
+  `calculate_quality_multiplier` if the 50 ms cache is stale — is in `[0.35, 1.1 × 1.03]`, and so is the
+  value it would leave in the cache;
+* the soft-cap factor is in `[0.1, 1]` for the link's own CC target / measured bitrate AND for any other
+  values of them (`tgt`, `br` arbitrary: the classifier / link-CC passes that stamp them run outside
+  `Sys.step`, so nothing is assumed about them);
+* the RTT bonus is in `[1, 1.03]`.
+Exact arithmetic under `ExpLaw e` (IEEE rounding / NaN are not part of this proof; the monitors
+`quality-range`, `softcap-range` assert the same ranges on the real code). -/
+theorem C11_factors_in_range_run (he : ExpLaw e) (s : Sys K) (evs : List Ev)
+    (hq : ∀ l ∈ s.links, 0.35 ≤ l.qualMult ∧ l.qualMult ≤ 1.1 * 1.03) :
+    ∀ l ∈ (@Sys.run K 𝕊 s evs).1.links,
+      (0.35 ≤ l.qualMult ∧ l.qualMult ≤ 1.1 * 1.03) ∧
+      (∀ now, (0.35 ≤ (@cachedQuality K 𝕊 (@FLink.toSLink K 𝕊 l) now).2 ∧
+                (@cachedQuality K 𝕊 (@FLink.toSLink K 𝕊 l) now).2 ≤ 1.1 * 1.03) ∧
+              (0.35 ≤ (@cachedQuality K 𝕊 (@FLink.toSLink K 𝕊 l) now).1.qualMult ∧
+                (@cachedQuality K 𝕊 (@FLink.toSLink K 𝕊 l) now).1.qualMult ≤ 1.1 * 1.03)) ∧
+      (∀ (tgt : Nat) (br : K),
+        0.1 ≤ @softCapMult K 𝕊 { (@FLink.toSLink K 𝕊 l) with ccTarget := tgt, bitrate := br } ∧
+        @softCapMult K 𝕊 { (@FLink.toSLink K 𝕊 l) with ccTarget := tgt, bitrate := br } ≤ 1) ∧
+      (0.1 ≤ @softCapMult K 𝕊 (@FLink.toSLink K 𝕊 l) ∧ @softCapMult K 𝕊 (@FLink.toSLink K 𝕊 l) ≤ 1) ∧
+      (1 ≤ @rttBonus K 𝕊 (@FLink.toSLink K 𝕊 l) ∧ @rttBonus K 𝕊 (@FLink.toSLink K 𝕊 l) ≤ 1.03) := by
+  intro l hl
+  have hr : 0.35 ≤ l.qualMult ∧ l.qualMult ≤ 1.1 * 1.03 :=
+    SelShell.qualRange_run e ninf he s evs hq l hl
+  refine ⟨hr, fun now => ?_, fun tgt br => C11_softcap_range e ninf _, C11_softcap_range e ninf _,
+    C11_rtt_bonus_range e ninf _⟩
+  exact C11_cached_quality_range e ninf he (@FLink.toSLink K 𝕊 l) now hr
+
+/-- From the driver's initial state (`n` fresh links), for every event list. -/
+theorem C11_factors_in_range_from_init (he : ExpLaw e) (n t0 : Nat) (reg : Reg.Reg) (evs : List Ev) :
+    ∀ l ∈ (@Sys.run K 𝕊
+        { links := (List.range n).map fun i => @FLink.newRegistering K 𝕊 (i + 1) t0, reg := reg } evs).1.links,
+      (0.35 ≤ l.qualMult ∧ l.qualMult ≤ 1.1 * 1.03) ∧
+      (∀ now, 0.35 ≤ (@cachedQuality K 𝕊 (@FLink.toSLink K 𝕊 l) now).2 ∧
+              (@cachedQuality K 𝕊 (@FLink.toSLink K 𝕊 l) now).2 ≤ 1.1 * 1.03) ∧
+      (∀ (tgt : Nat) (br : K),
+        0.1 ≤ @softCapMult K 𝕊 { (@FLink.toSLink K 𝕊 l) with ccTarget := tgt, bitrate := br } ∧
+        @softCapMult K 𝕊 { (@FLink.toSLink K 𝕊 l) with ccTarget := tgt, bitrate := br } ≤ 1) := by
+  intro l hl
+  have h := C11_factors_in_range_run e ninf he _ evs (by
+    intro x hx
+    obtain ⟨i, -, rfl⟩ := List.mem_map.1 hx
+    exact SysInv.qualRange_new e ninf (i + 1) t0) l hl
+  exact ⟨h.1, fun now => (h.2.1 now).1, h.2.2.1⟩
+
+end shellField
+
+/-- Instance over `ℚ` (`exp x := 1/(1-x)`): after ANY events from two fresh links, e.g. a CC target of
+4 Mbit/s at 3.9 Mbit/s measured gives a soft-cap factor in `[0.1, 1]`. -/
+example (evs : List Srtla.Sys.Ev) :
+    ∀ l ∈ (@Srtla.Sys.run ℚ ratScalar
+        { links := (List.range 2).map fun i => @Srtla.Link.FLink.newRegistering ℚ ratScalar (i + 1) 0,
+          reg := Srtla.Reg.Reg.new [] [] } evs).1.links,
+      0.1 ≤ @softCapMult ℚ ratScalar
+        { (@Srtla.Link.FLink.toSLink ℚ ratScalar l) with ccTarget := 4000000, bitrate := 3900000 } :=
+  fun l hl => ((C11_factors_in_range_from_init _ _ expLaw_rat 2 0 _ evs l hl).2.2 4000000 3900000).1
 
 end Srtla.Props.C11
